@@ -167,6 +167,14 @@
           yr_compiler_set_error_extra_info( \
               compiler, "wrong type \"boolean\" for " op " operator"); \
           break; \
+        case EXPRESSION_TYPE_REGEXP: \
+          yr_compiler_set_error_extra_info( \
+              compiler, "wrong type \"regexp\" for " op " operator"); \
+          break; \
+        default: \
+          yr_compiler_set_error_extra_info( \
+              compiler, "wrong type for " op " operator"); \
+          break; \
       } \
       cleanup; \
       compiler->last_error = ERROR_WRONG_TYPE; \
@@ -205,7 +213,7 @@
     "ABCDEFGHIJKLMNOPQRSTUVWXYZabcdefghijklmnopqrstuvwxyz0123456789+/"
 
 
-#line 209 "libyara/grammar.c"
+#line 217 "libyara/grammar.c"
 
 # ifndef YY_CAST
 #  ifdef __cplusplus
@@ -384,7 +392,7 @@ extern int yara_yydebug;
 #if ! defined YYSTYPE && ! defined YYSTYPE_IS_DECLARED
 union YYSTYPE
 {
-#line 348 "libyara/grammar.y"
+#line 356 "libyara/grammar.y"
 
   YR_EXPRESSION   expression;
   SIZED_STRING*   sized_string;
@@ -399,7 +407,7 @@ union YYSTYPE
   YR_ARENA_REF meta;
   YR_ARENA_REF string;
 
-#line 403 "libyara/grammar.c"
+#line 411 "libyara/grammar.c"
 
 };
 typedef union YYSTYPE YYSTYPE;
@@ -947,23 +955,23 @@ static const yytype_int8 yytranslate[] =
 /* YYRLINE[YYN] -- Source line where rule number YYN was defined.  */
 static const yytype_int16 yyrline[] =
 {
-       0,   367,   367,   368,   369,   370,   371,   372,   373,   377,
-     385,   398,   403,   397,   434,   437,   453,   456,   471,   479,
-     480,   485,   486,   492,   495,   511,   520,   562,   563,   568,
-     585,   599,   613,   627,   645,   646,   652,   651,   668,   667,
-     688,   687,   712,   718,   778,   779,   780,   781,   782,   783,
-     789,   810,   841,   849,   866,   874,   894,   895,   909,   910,
-     911,   912,   913,   917,   918,   932,   936,  1032,  1080,  1141,
-    1187,  1193,  1197,  1232,  1285,  1340,  1371,  1378,  1385,  1398,
-    1409,  1420,  1431,  1442,  1453,  1464,  1475,  1490,  1506,  1518,
-    1593,  1631,  1535,  1760,  1783,  1795,  1823,  1842,  1865,  1913,
-    1920,  1927,  1926,  1973,  1972,  2023,  2031,  2039,  2047,  2055,
-    2063,  2071,  2075,  2083,  2084,  2109,  2129,  2157,  2231,  2263,
-    2281,  2292,  2335,  2351,  2371,  2381,  2380,  2389,  2403,  2404,
-    2409,  2419,  2434,  2433,  2446,  2447,  2452,  2485,  2510,  2566,
-    2573,  2579,  2585,  2595,  2599,  2607,  2619,  2633,  2640,  2647,
-    2672,  2684,  2696,  2708,  2723,  2735,  2750,  2797,  2818,  2853,
-    2888,  2922,  2953,  2975,  2985,  2995,  3005,  3015,  3035,  3055
+       0,   375,   375,   376,   377,   378,   379,   380,   381,   385,
+     393,   406,   411,   405,   442,   445,   461,   464,   479,   487,
+     488,   493,   494,   500,   503,   519,   528,   570,   571,   576,
+     593,   607,   621,   635,   653,   654,   660,   659,   676,   675,
+     696,   695,   720,   726,   786,   787,   788,   789,   790,   791,
+     797,   818,   849,   857,   874,   882,   902,   903,   917,   918,
+     919,   920,   921,   925,   926,   940,   944,  1040,  1088,  1149,
+    1195,  1201,  1205,  1240,  1293,  1348,  1379,  1386,  1393,  1406,
+    1417,  1428,  1439,  1450,  1461,  1472,  1483,  1498,  1514,  1526,
+    1601,  1639,  1543,  1768,  1791,  1803,  1831,  1850,  1873,  1921,
+    1928,  1935,  1934,  1981,  1980,  2031,  2039,  2047,  2055,  2063,
+    2071,  2079,  2083,  2091,  2092,  2117,  2137,  2165,  2239,  2271,
+    2289,  2300,  2343,  2359,  2379,  2389,  2388,  2397,  2411,  2412,
+    2417,  2427,  2442,  2441,  2454,  2455,  2460,  2493,  2518,  2574,
+    2581,  2587,  2593,  2603,  2607,  2615,  2627,  2641,  2648,  2655,
+    2680,  2692,  2704,  2716,  2731,  2743,  2758,  2805,  2826,  2861,
+    2896,  2930,  2961,  2983,  2993,  3003,  3013,  3023,  3043,  3063
 };
 #endif
 
@@ -1779,60 +1787,72 @@ yydestruct (const char *yymsg,
   switch (yykind)
     {
     case YYSYMBOL__IDENTIFIER_: /* "identifier"  */
-#line 318 "libyara/grammar.y"
+#line 326 "libyara/grammar.y"
             { yr_free(((*yyvaluep).c_string)); ((*yyvaluep).c_string) = NULL; }
-#line 1785 "libyara/grammar.c"
+#line 1793 "libyara/grammar.c"
         break;
 
     case YYSYMBOL__STRING_IDENTIFIER_: /* "string identifier"  */
-#line 322 "libyara/grammar.y"
+#line 330 "libyara/grammar.y"
             { yr_free(((*yyvaluep).c_string)); ((*yyvaluep).c_string) = NULL; }
-#line 1791 "libyara/grammar.c"
+#line 1799 "libyara/grammar.c"
         break;
 
     case YYSYMBOL__STRING_COUNT_: /* "string count"  */
-#line 319 "libyara/grammar.y"
+#line 327 "libyara/grammar.y"
             { yr_free(((*yyvaluep).c_string)); ((*yyvaluep).c_string) = NULL; }
-#line 1797 "libyara/grammar.c"
+#line 1805 "libyara/grammar.c"
         break;
 
     case YYSYMBOL__STRING_OFFSET_: /* "string offset"  */
-#line 320 "libyara/grammar.y"
+#line 328 "libyara/grammar.y"
             { yr_free(((*yyvaluep).c_string)); ((*yyvaluep).c_string) = NULL; }
-#line 1803 "libyara/grammar.c"
+#line 1811 "libyara/grammar.c"
         break;
 
     case YYSYMBOL__STRING_LENGTH_: /* "string length"  */
-#line 321 "libyara/grammar.y"
+#line 329 "libyara/grammar.y"
             { yr_free(((*yyvaluep).c_string)); ((*yyvaluep).c_string) = NULL; }
-#line 1809 "libyara/grammar.c"
+#line 1817 "libyara/grammar.c"
         break;
 
     case YYSYMBOL__STRING_IDENTIFIER_WITH_WILDCARD_: /* "string identifier with wildcard"  */
-#line 323 "libyara/grammar.y"
+#line 331 "libyara/grammar.y"
             { yr_free(((*yyvaluep).c_string)); ((*yyvaluep).c_string) = NULL; }
-#line 1815 "libyara/grammar.c"
+#line 1823 "libyara/grammar.c"
         break;
 
     case YYSYMBOL__TEXT_STRING_: /* "text string"  */
-#line 324 "libyara/grammar.y"
+#line 332 "libyara/grammar.y"
             { yr_free(((*yyvaluep).sized_string)); ((*yyvaluep).sized_string) = NULL; }
-#line 1821 "libyara/grammar.c"
+#line 1829 "libyara/grammar.c"
         break;
 
     case YYSYMBOL__HEX_STRING_: /* "hex string"  */
-#line 325 "libyara/grammar.y"
+#line 333 "libyara/grammar.y"
             { yr_free(((*yyvaluep).sized_string)); ((*yyvaluep).sized_string) = NULL; }
-#line 1827 "libyara/grammar.c"
+#line 1835 "libyara/grammar.c"
         break;
 
     case YYSYMBOL__REGEXP_: /* "regular expression"  */
-#line 326 "libyara/grammar.y"
+#line 334 "libyara/grammar.y"
             { yr_free(((*yyvaluep).sized_string)); ((*yyvaluep).sized_string) = NULL; }
-#line 1833 "libyara/grammar.c"
+#line 1841 "libyara/grammar.c"
         break;
 
     case YYSYMBOL_string_modifiers: /* string_modifiers  */
+#line 347 "libyara/grammar.y"
+            {
+  if (((*yyvaluep).modifier).alphabet != NULL)
+  {
+    yr_free(((*yyvaluep).modifier).alphabet);
+    ((*yyvaluep).modifier).alphabet = NULL;
+  }
+}
+#line 1853 "libyara/grammar.c"
+        break;
+
+    case YYSYMBOL_string_modifier: /* string_modifier  */
 #line 339 "libyara/grammar.y"
             {
   if (((*yyvaluep).modifier).alphabet != NULL)
@@ -1841,31 +1861,19 @@ yydestruct (const char *yymsg,
     ((*yyvaluep).modifier).alphabet = NULL;
   }
 }
-#line 1845 "libyara/grammar.c"
-        break;
-
-    case YYSYMBOL_string_modifier: /* string_modifier  */
-#line 331 "libyara/grammar.y"
-            {
-  if (((*yyvaluep).modifier).alphabet != NULL)
-  {
-    yr_free(((*yyvaluep).modifier).alphabet);
-    ((*yyvaluep).modifier).alphabet = NULL;
-  }
-}
-#line 1857 "libyara/grammar.c"
+#line 1865 "libyara/grammar.c"
         break;
 
     case YYSYMBOL_arguments: /* arguments  */
-#line 328 "libyara/grammar.y"
+#line 336 "libyara/grammar.y"
             { yr_free(((*yyvaluep).c_string)); ((*yyvaluep).c_string) = NULL; }
-#line 1863 "libyara/grammar.c"
+#line 1871 "libyara/grammar.c"
         break;
 
     case YYSYMBOL_arguments_list: /* arguments_list  */
-#line 329 "libyara/grammar.y"
+#line 337 "libyara/grammar.y"
             { yr_free(((*yyvaluep).c_string)); ((*yyvaluep).c_string) = NULL; }
-#line 1869 "libyara/grammar.c"
+#line 1877 "libyara/grammar.c"
         break;
 
       default:
@@ -2142,23 +2150,23 @@ yyreduce:
   switch (yyn)
     {
   case 8: /* rules: rules "end of included file"  */
-#line 374 "libyara/grammar.y"
-      {
-        _yr_compiler_pop_file_name(compiler);
-      }
-#line 2150 "libyara/grammar.c"
-    break;
-
-  case 9: /* rules: rules error "end of included file"  */
-#line 378 "libyara/grammar.y"
+#line 382 "libyara/grammar.y"
       {
         _yr_compiler_pop_file_name(compiler);
       }
 #line 2158 "libyara/grammar.c"
     break;
 
-  case 10: /* import: "<import>" "text string"  */
+  case 9: /* rules: rules error "end of included file"  */
 #line 386 "libyara/grammar.y"
+      {
+        _yr_compiler_pop_file_name(compiler);
+      }
+#line 2166 "libyara/grammar.c"
+    break;
+
+  case 10: /* import: "<import>" "text string"  */
+#line 394 "libyara/grammar.y"
       {
         int result = yr_parser_reduce_import(yyscanner, (yyvsp[0].sized_string));
 
@@ -2166,20 +2174,20 @@ yyreduce:
 
         fail_if_error(result);
       }
-#line 2170 "libyara/grammar.c"
+#line 2178 "libyara/grammar.c"
     break;
 
   case 11: /* @1: %empty  */
-#line 398 "libyara/grammar.y"
+#line 406 "libyara/grammar.y"
       {
         fail_if_error(yr_parser_reduce_rule_declaration_phase_1(
             yyscanner, (int32_t) (yyvsp[-2].integer), (yyvsp[0].c_string), &(yyval.rule)));
       }
-#line 2179 "libyara/grammar.c"
+#line 2187 "libyara/grammar.c"
     break;
 
   case 12: /* $@2: %empty  */
-#line 403 "libyara/grammar.y"
+#line 411 "libyara/grammar.y"
       {
         YR_RULE* rule = (YR_RULE*) yr_arena_ref_to_ptr(
             compiler->arena, &(yyvsp[-4].rule));
@@ -2193,11 +2201,11 @@ yyreduce:
         rule->strings = (YR_STRING*) yr_arena_ref_to_ptr(
             compiler->arena, &(yyvsp[0].string));
       }
-#line 2197 "libyara/grammar.c"
+#line 2205 "libyara/grammar.c"
     break;
 
   case 13: /* rule: rule_modifiers "<rule>" "identifier" @1 tags '{' meta strings $@2 condition '}'  */
-#line 417 "libyara/grammar.y"
+#line 425 "libyara/grammar.y"
       {
         YR_RULE* rule = (YR_RULE*) yr_arena_ref_to_ptr(
             compiler->arena, &(yyvsp[-7].rule));
@@ -2210,19 +2218,19 @@ yyreduce:
 
         fail_if_error(result);
       }
-#line 2214 "libyara/grammar.c"
-    break;
-
-  case 14: /* meta: %empty  */
-#line 434 "libyara/grammar.y"
-      {
-        (yyval.meta) = YR_ARENA_NULL_REF;
-      }
 #line 2222 "libyara/grammar.c"
     break;
 
+  case 14: /* meta: %empty  */
+#line 442 "libyara/grammar.y"
+      {
+        (yyval.meta) = YR_ARENA_NULL_REF;
+      }
+#line 2230 "libyara/grammar.c"
+    break;
+
   case 15: /* meta: "<meta>" ':' meta_declarations  */
-#line 438 "libyara/grammar.y"
+#line 446 "libyara/grammar.y"
       {
         YR_META* meta = yr_arena_get_ptr(
             compiler->arena,
@@ -2233,19 +2241,19 @@ yyreduce:
 
         (yyval.meta) = (yyvsp[0].meta);
       }
-#line 2237 "libyara/grammar.c"
-    break;
-
-  case 16: /* strings: %empty  */
-#line 453 "libyara/grammar.y"
-      {
-        (yyval.string) = YR_ARENA_NULL_REF;
-      }
 #line 2245 "libyara/grammar.c"
     break;
 
+  case 16: /* strings: %empty  */
+#line 461 "libyara/grammar.y"
+      {
+        (yyval.string) = YR_ARENA_NULL_REF;
+      }
+#line 2253 "libyara/grammar.c"
+    break;
+
   case 17: /* strings: "<strings>" ':' string_declarations  */
-#line 457 "libyara/grammar.y"
+#line 465 "libyara/grammar.y"
       {
         YR_STRING* string = (YR_STRING*) yr_arena_get_ptr(
             compiler->arena,
@@ -2256,51 +2264,51 @@ yyreduce:
 
         (yyval.string) = (yyvsp[0].string);
       }
-#line 2260 "libyara/grammar.c"
-    break;
-
-  case 18: /* condition: "<condition>" ':' boolean_expression  */
-#line 472 "libyara/grammar.y"
-      {
-        (yyval.expression) = (yyvsp[0].expression);
-      }
 #line 2268 "libyara/grammar.c"
     break;
 
+  case 18: /* condition: "<condition>" ':' boolean_expression  */
+#line 480 "libyara/grammar.y"
+      {
+        (yyval.expression) = (yyvsp[0].expression);
+      }
+#line 2276 "libyara/grammar.c"
+    break;
+
   case 19: /* rule_modifiers: %empty  */
-#line 479 "libyara/grammar.y"
+#line 487 "libyara/grammar.y"
                                        { (yyval.integer) = 0;  }
-#line 2274 "libyara/grammar.c"
+#line 2282 "libyara/grammar.c"
     break;
 
   case 20: /* rule_modifiers: rule_modifiers rule_modifier  */
-#line 480 "libyara/grammar.y"
+#line 488 "libyara/grammar.y"
                                        { (yyval.integer) = (yyvsp[-1].integer) | (yyvsp[0].integer); }
-#line 2280 "libyara/grammar.c"
+#line 2288 "libyara/grammar.c"
     break;
 
   case 21: /* rule_modifier: "<private>"  */
-#line 485 "libyara/grammar.y"
+#line 493 "libyara/grammar.y"
                      { (yyval.integer) = RULE_FLAGS_PRIVATE; }
-#line 2286 "libyara/grammar.c"
+#line 2294 "libyara/grammar.c"
     break;
 
   case 22: /* rule_modifier: "<global>"  */
-#line 486 "libyara/grammar.y"
+#line 494 "libyara/grammar.y"
                      { (yyval.integer) = RULE_FLAGS_GLOBAL; }
-#line 2292 "libyara/grammar.c"
-    break;
-
-  case 23: /* tags: %empty  */
-#line 492 "libyara/grammar.y"
-      {
-        (yyval.tag) = YR_ARENA_NULL_REF;
-      }
 #line 2300 "libyara/grammar.c"
     break;
 
+  case 23: /* tags: %empty  */
+#line 500 "libyara/grammar.y"
+      {
+        (yyval.tag) = YR_ARENA_NULL_REF;
+      }
+#line 2308 "libyara/grammar.c"
+    break;
+
   case 24: /* tags: ':' tag_list  */
-#line 496 "libyara/grammar.y"
+#line 504 "libyara/grammar.y"
       {
         // Tags list is represented in the arena as a sequence
         // of null-terminated strings, the sequence ends with an
@@ -2312,11 +2320,11 @@ yyreduce:
 
         (yyval.tag) = (yyvsp[0].tag);
       }
-#line 2316 "libyara/grammar.c"
+#line 2324 "libyara/grammar.c"
     break;
 
   case 25: /* tag_list: "identifier"  */
-#line 512 "libyara/grammar.y"
+#line 520 "libyara/grammar.y"
       {
         int result = yr_arena_write_string(
             yyget_extra(yyscanner)->arena, YR_SZ_POOL, (yyvsp[0].c_string), &(yyval.tag));
@@ -2325,11 +2333,11 @@ yyreduce:
 
         fail_if_error(result);
       }
-#line 2329 "libyara/grammar.c"
+#line 2337 "libyara/grammar.c"
     break;
 
   case 26: /* tag_list: tag_list "identifier"  */
-#line 521 "libyara/grammar.y"
+#line 529 "libyara/grammar.y"
       {
         YR_ARENA_REF ref;
 
@@ -2366,23 +2374,23 @@ yyreduce:
 
         (yyval.tag) = (yyvsp[-1].tag);
       }
-#line 2370 "libyara/grammar.c"
+#line 2378 "libyara/grammar.c"
     break;
 
   case 27: /* meta_declarations: meta_declaration  */
-#line 562 "libyara/grammar.y"
+#line 570 "libyara/grammar.y"
                                           {  (yyval.meta) = (yyvsp[0].meta); }
-#line 2376 "libyara/grammar.c"
+#line 2384 "libyara/grammar.c"
     break;
 
   case 28: /* meta_declarations: meta_declarations meta_declaration  */
-#line 563 "libyara/grammar.y"
+#line 571 "libyara/grammar.y"
                                           {  (yyval.meta) = (yyvsp[-1].meta); }
-#line 2382 "libyara/grammar.c"
+#line 2390 "libyara/grammar.c"
     break;
 
   case 29: /* meta_declaration: "identifier" '=' "text string"  */
-#line 569 "libyara/grammar.y"
+#line 577 "libyara/grammar.y"
       {
         SIZED_STRING* sized_string = (yyvsp[0].sized_string);
 
@@ -2399,11 +2407,11 @@ yyreduce:
 
         fail_if_error(result);
       }
-#line 2403 "libyara/grammar.c"
+#line 2411 "libyara/grammar.c"
     break;
 
   case 30: /* meta_declaration: "identifier" '=' "integer number"  */
-#line 586 "libyara/grammar.y"
+#line 594 "libyara/grammar.y"
       {
         int result = yr_parser_reduce_meta_declaration(
             yyscanner,
@@ -2417,11 +2425,11 @@ yyreduce:
 
         fail_if_error(result);
       }
-#line 2421 "libyara/grammar.c"
+#line 2429 "libyara/grammar.c"
     break;
 
   case 31: /* meta_declaration: "identifier" '=' '-' "integer number"  */
-#line 600 "libyara/grammar.y"
+#line 608 "libyara/grammar.y"
       {
         int result = yr_parser_reduce_meta_declaration(
             yyscanner,
@@ -2435,11 +2443,11 @@ yyreduce:
 
         fail_if_error(result);
       }
-#line 2439 "libyara/grammar.c"
+#line 2447 "libyara/grammar.c"
     break;
 
   case 32: /* meta_declaration: "identifier" '=' "<true>"  */
-#line 614 "libyara/grammar.y"
+#line 622 "libyara/grammar.y"
       {
         int result = yr_parser_reduce_meta_declaration(
             yyscanner,
@@ -2453,11 +2461,11 @@ yyreduce:
 
         fail_if_error(result);
       }
-#line 2457 "libyara/grammar.c"
+#line 2465 "libyara/grammar.c"
     break;
 
   case 33: /* meta_declaration: "identifier" '=' "<false>"  */
-#line 628 "libyara/grammar.y"
+#line 636 "libyara/grammar.y"
       {
         int result = yr_parser_reduce_meta_declaration(
             yyscanner,
@@ -2471,31 +2479,31 @@ yyreduce:
 
         fail_if_error(result);
       }
-#line 2475 "libyara/grammar.c"
+#line 2483 "libyara/grammar.c"
     break;
 
   case 34: /* string_declarations: string_declaration  */
-#line 645 "libyara/grammar.y"
+#line 653 "libyara/grammar.y"
                                               { (yyval.string) = (yyvsp[0].string); }
-#line 2481 "libyara/grammar.c"
+#line 2489 "libyara/grammar.c"
     break;
 
   case 35: /* string_declarations: string_declarations string_declaration  */
-#line 646 "libyara/grammar.y"
+#line 654 "libyara/grammar.y"
                                               { (yyval.string) = (yyvsp[-1].string); }
-#line 2487 "libyara/grammar.c"
-    break;
-
-  case 36: /* $@3: %empty  */
-#line 652 "libyara/grammar.y"
-      {
-        compiler->current_line = yyget_lineno(yyscanner);
-      }
 #line 2495 "libyara/grammar.c"
     break;
 
+  case 36: /* $@3: %empty  */
+#line 660 "libyara/grammar.y"
+      {
+        compiler->current_line = yyget_lineno(yyscanner);
+      }
+#line 2503 "libyara/grammar.c"
+    break;
+
   case 37: /* string_declaration: "string identifier" '=' $@3 "text string" string_modifiers  */
-#line 656 "libyara/grammar.y"
+#line 664 "libyara/grammar.y"
       {
         int result = yr_parser_reduce_string_declaration(
             yyscanner, (yyvsp[0].modifier), (yyvsp[-4].c_string), (yyvsp[-1].sized_string), &(yyval.string));
@@ -2507,19 +2515,19 @@ yyreduce:
         fail_if_error(result);
         compiler->current_line = 0;
       }
-#line 2511 "libyara/grammar.c"
-    break;
-
-  case 38: /* $@4: %empty  */
-#line 668 "libyara/grammar.y"
-      {
-        compiler->current_line = yyget_lineno(yyscanner);
-      }
 #line 2519 "libyara/grammar.c"
     break;
 
+  case 38: /* $@4: %empty  */
+#line 676 "libyara/grammar.y"
+      {
+        compiler->current_line = yyget_lineno(yyscanner);
+      }
+#line 2527 "libyara/grammar.c"
+    break;
+
   case 39: /* string_declaration: "string identifier" '=' $@4 "regular expression" regexp_modifiers  */
-#line 672 "libyara/grammar.y"
+#line 680 "libyara/grammar.y"
       {
         int result;
 
@@ -2535,19 +2543,19 @@ yyreduce:
 
         compiler->current_line = 0;
       }
-#line 2539 "libyara/grammar.c"
-    break;
-
-  case 40: /* $@5: %empty  */
-#line 688 "libyara/grammar.y"
-      {
-        compiler->current_line = yyget_lineno(yyscanner);
-      }
 #line 2547 "libyara/grammar.c"
     break;
 
+  case 40: /* $@5: %empty  */
+#line 696 "libyara/grammar.y"
+      {
+        compiler->current_line = yyget_lineno(yyscanner);
+      }
+#line 2555 "libyara/grammar.c"
+    break;
+
   case 41: /* string_declaration: "string identifier" '=' $@5 "hex string" hex_modifiers  */
-#line 692 "libyara/grammar.y"
+#line 700 "libyara/grammar.y"
       {
         int result;
 
@@ -2563,22 +2571,22 @@ yyreduce:
 
         compiler->current_line = 0;
       }
-#line 2567 "libyara/grammar.c"
+#line 2575 "libyara/grammar.c"
     break;
 
   case 42: /* string_modifiers: %empty  */
-#line 712 "libyara/grammar.y"
+#line 720 "libyara/grammar.y"
       {
         (yyval.modifier).flags = 0;
         (yyval.modifier).xor_min = 0;
         (yyval.modifier).xor_max = 0;
         (yyval.modifier).alphabet = NULL;
       }
-#line 2578 "libyara/grammar.c"
+#line 2586 "libyara/grammar.c"
     break;
 
   case 43: /* string_modifiers: string_modifiers string_modifier  */
-#line 719 "libyara/grammar.y"
+#line 727 "libyara/grammar.y"
       {
         (yyval.modifier) = (yyvsp[-1].modifier);
 
@@ -2634,51 +2642,51 @@ yyreduce:
           (yyval.modifier).flags = (yyval.modifier).flags | (yyvsp[0].modifier).flags;
         }
       }
-#line 2638 "libyara/grammar.c"
+#line 2646 "libyara/grammar.c"
     break;
 
   case 44: /* string_modifier: "<wide>"  */
-#line 778 "libyara/grammar.y"
+#line 786 "libyara/grammar.y"
                     { (yyval.modifier).flags = STRING_FLAGS_WIDE; }
-#line 2644 "libyara/grammar.c"
+#line 2652 "libyara/grammar.c"
     break;
 
   case 45: /* string_modifier: "<ascii>"  */
-#line 779 "libyara/grammar.y"
+#line 787 "libyara/grammar.y"
                     { (yyval.modifier).flags = STRING_FLAGS_ASCII; }
-#line 2650 "libyara/grammar.c"
+#line 2658 "libyara/grammar.c"
     break;
 
   case 46: /* string_modifier: "<nocase>"  */
-#line 780 "libyara/grammar.y"
+#line 788 "libyara/grammar.y"
                     { (yyval.modifier).flags = STRING_FLAGS_NO_CASE; }
-#line 2656 "libyara/grammar.c"
+#line 2664 "libyara/grammar.c"
     break;
 
   case 47: /* string_modifier: "<fullword>"  */
-#line 781 "libyara/grammar.y"
+#line 789 "libyara/grammar.y"
                     { (yyval.modifier).flags = STRING_FLAGS_FULL_WORD; }
-#line 2662 "libyara/grammar.c"
+#line 2670 "libyara/grammar.c"
     break;
 
   case 48: /* string_modifier: "<private>"  */
-#line 782 "libyara/grammar.y"
+#line 790 "libyara/grammar.y"
                     { (yyval.modifier).flags = STRING_FLAGS_PRIVATE; }
-#line 2668 "libyara/grammar.c"
+#line 2676 "libyara/grammar.c"
     break;
 
   case 49: /* string_modifier: "<xor>"  */
-#line 784 "libyara/grammar.y"
+#line 792 "libyara/grammar.y"
       {
         (yyval.modifier).flags = STRING_FLAGS_XOR;
         (yyval.modifier).xor_min = 0;
         (yyval.modifier).xor_max = 255;
       }
-#line 2678 "libyara/grammar.c"
+#line 2686 "libyara/grammar.c"
     break;
 
   case 50: /* string_modifier: "<xor>" '(' "integer number" ')'  */
-#line 790 "libyara/grammar.y"
+#line 798 "libyara/grammar.y"
       {
         int result = ERROR_SUCCESS;
 
@@ -2694,11 +2702,11 @@ yyreduce:
         (yyval.modifier).xor_min = (uint8_t) (yyvsp[-1].integer);
         (yyval.modifier).xor_max = (uint8_t) (yyvsp[-1].integer);
       }
-#line 2698 "libyara/grammar.c"
+#line 2706 "libyara/grammar.c"
     break;
 
   case 51: /* string_modifier: "<xor>" '(' "integer number" '-' "integer number" ')'  */
-#line 811 "libyara/grammar.y"
+#line 819 "libyara/grammar.y"
       {
         int result = ERROR_SUCCESS;
 
@@ -2729,11 +2737,11 @@ yyreduce:
         (yyval.modifier).xor_min = (uint8_t) (yyvsp[-3].integer);
         (yyval.modifier).xor_max = (uint8_t) (yyvsp[-1].integer);
       }
-#line 2733 "libyara/grammar.c"
+#line 2741 "libyara/grammar.c"
     break;
 
   case 52: /* string_modifier: "<base64>"  */
-#line 842 "libyara/grammar.y"
+#line 850 "libyara/grammar.y"
       {
         (yyval.modifier).flags = STRING_FLAGS_BASE64;
         (yyval.modifier).alphabet = ss_new(DEFAULT_BASE64_ALPHABET);
@@ -2741,11 +2749,11 @@ yyreduce:
         if ((yyval.modifier).alphabet == NULL)
           fail_with_error(ERROR_INSUFFICIENT_MEMORY);
       }
-#line 2745 "libyara/grammar.c"
+#line 2753 "libyara/grammar.c"
     break;
 
   case 53: /* string_modifier: "<base64>" '(' "text string" ')'  */
-#line 850 "libyara/grammar.y"
+#line 858 "libyara/grammar.y"
       {
         int result = ERROR_SUCCESS;
 
@@ -2762,11 +2770,11 @@ yyreduce:
         (yyval.modifier).flags = STRING_FLAGS_BASE64;
         (yyval.modifier).alphabet = (yyvsp[-1].sized_string);
       }
-#line 2766 "libyara/grammar.c"
+#line 2774 "libyara/grammar.c"
     break;
 
   case 54: /* string_modifier: "<base64wide>"  */
-#line 867 "libyara/grammar.y"
+#line 875 "libyara/grammar.y"
       {
         (yyval.modifier).flags = STRING_FLAGS_BASE64_WIDE;
         (yyval.modifier).alphabet = ss_new(DEFAULT_BASE64_ALPHABET);
@@ -2774,11 +2782,11 @@ yyreduce:
         if ((yyval.modifier).alphabet == NULL)
           fail_with_error(ERROR_INSUFFICIENT_MEMORY);
       }
-#line 2778 "libyara/grammar.c"
+#line 2786 "libyara/grammar.c"
     break;
 
   case 55: /* string_modifier: "<base64wide>" '(' "text string" ')'  */
-#line 875 "libyara/grammar.y"
+#line 883 "libyara/grammar.y"
       {
         int result = ERROR_SUCCESS;
 
@@ -2795,17 +2803,17 @@ yyreduce:
         (yyval.modifier).flags = STRING_FLAGS_BASE64_WIDE;
         (yyval.modifier).alphabet = (yyvsp[-1].sized_string);
       }
-#line 2799 "libyara/grammar.c"
+#line 2807 "libyara/grammar.c"
     break;
 
   case 56: /* regexp_modifiers: %empty  */
-#line 894 "libyara/grammar.y"
+#line 902 "libyara/grammar.y"
                                           { (yyval.modifier).flags = 0; }
-#line 2805 "libyara/grammar.c"
+#line 2813 "libyara/grammar.c"
     break;
 
   case 57: /* regexp_modifiers: regexp_modifiers regexp_modifier  */
-#line 896 "libyara/grammar.y"
+#line 904 "libyara/grammar.y"
       {
         if ((yyvsp[-1].modifier).flags & (yyvsp[0].modifier).flags)
         {
@@ -2816,47 +2824,47 @@ yyreduce:
           (yyval.modifier).flags = (yyvsp[-1].modifier).flags | (yyvsp[0].modifier).flags;
         }
       }
-#line 2820 "libyara/grammar.c"
+#line 2828 "libyara/grammar.c"
     break;
 
   case 58: /* regexp_modifier: "<wide>"  */
-#line 909 "libyara/grammar.y"
+#line 917 "libyara/grammar.y"
                     { (yyval.modifier).flags = STRING_FLAGS_WIDE; }
-#line 2826 "libyara/grammar.c"
+#line 2834 "libyara/grammar.c"
     break;
 
   case 59: /* regexp_modifier: "<ascii>"  */
-#line 910 "libyara/grammar.y"
+#line 918 "libyara/grammar.y"
                     { (yyval.modifier).flags = STRING_FLAGS_ASCII; }
-#line 2832 "libyara/grammar.c"
+#line 2840 "libyara/grammar.c"
     break;
 
   case 60: /* regexp_modifier: "<nocase>"  */
-#line 911 "libyara/grammar.y"
+#line 919 "libyara/grammar.y"
                     { (yyval.modifier).flags = STRING_FLAGS_NO_CASE; }
-#line 2838 "libyara/grammar.c"
+#line 2846 "libyara/grammar.c"
     break;
 
   case 61: /* regexp_modifier: "<fullword>"  */
-#line 912 "libyara/grammar.y"
+#line 920 "libyara/grammar.y"
                     { (yyval.modifier).flags = STRING_FLAGS_FULL_WORD; }
-#line 2844 "libyara/grammar.c"
+#line 2852 "libyara/grammar.c"
     break;
 
   case 62: /* regexp_modifier: "<private>"  */
-#line 913 "libyara/grammar.y"
+#line 921 "libyara/grammar.y"
                     { (yyval.modifier).flags = STRING_FLAGS_PRIVATE; }
-#line 2850 "libyara/grammar.c"
+#line 2858 "libyara/grammar.c"
     break;
 
   case 63: /* hex_modifiers: %empty  */
-#line 917 "libyara/grammar.y"
+#line 925 "libyara/grammar.y"
                                           { (yyval.modifier).flags = 0; }
-#line 2856 "libyara/grammar.c"
+#line 2864 "libyara/grammar.c"
     break;
 
   case 64: /* hex_modifiers: hex_modifiers hex_modifier  */
-#line 919 "libyara/grammar.y"
+#line 927 "libyara/grammar.y"
       {
         if ((yyvsp[-1].modifier).flags & (yyvsp[0].modifier).flags)
         {
@@ -2867,17 +2875,17 @@ yyreduce:
           (yyval.modifier).flags = (yyvsp[-1].modifier).flags | (yyvsp[0].modifier).flags;
         }
       }
-#line 2871 "libyara/grammar.c"
+#line 2879 "libyara/grammar.c"
     break;
 
   case 65: /* hex_modifier: "<private>"  */
-#line 932 "libyara/grammar.y"
+#line 940 "libyara/grammar.y"
                     { (yyval.modifier).flags = STRING_FLAGS_PRIVATE; }
-#line 2877 "libyara/grammar.c"
+#line 2885 "libyara/grammar.c"
     break;
 
   case 66: /* identifier: "identifier"  */
-#line 937 "libyara/grammar.y"
+#line 945 "libyara/grammar.y"
       {
         YR_EXPRESSION expr;
 
@@ -2973,11 +2981,11 @@ yyreduce:
 
         fail_if_error(result);
       }
-#line 2977 "libyara/grammar.c"
+#line 2985 "libyara/grammar.c"
     break;
 
   case 67: /* identifier: identifier '.' "identifier"  */
-#line 1033 "libyara/grammar.y"
+#line 1041 "libyara/grammar.y"
       {
         int result = ERROR_SUCCESS;
         YR_OBJECT* field = NULL;
@@ -3025,11 +3033,11 @@ yyreduce:
 
         fail_if_error(result);
       }
-#line 3029 "libyara/grammar.c"
+#line 3037 "libyara/grammar.c"
     break;
 
   case 68: /* identifier: identifier '[' primary_expression ']'  */
-#line 1081 "libyara/grammar.y"
+#line 1089 "libyara/grammar.y"
       {
         int result = ERROR_SUCCESS;
         YR_OBJECT_ARRAY* array;
@@ -3089,11 +3097,11 @@ yyreduce:
 
         fail_if_error(result);
       }
-#line 3093 "libyara/grammar.c"
+#line 3101 "libyara/grammar.c"
     break;
 
   case 69: /* identifier: identifier '(' arguments ')'  */
-#line 1142 "libyara/grammar.y"
+#line 1150 "libyara/grammar.y"
       {
         YR_ARENA_REF ref = YR_ARENA_NULL_REF;
         int result = ERROR_SUCCESS;
@@ -3134,28 +3142,28 @@ yyreduce:
 
         fail_if_error(result);
       }
-#line 3138 "libyara/grammar.c"
+#line 3146 "libyara/grammar.c"
     break;
 
   case 70: /* arguments: %empty  */
-#line 1187 "libyara/grammar.y"
+#line 1195 "libyara/grammar.y"
       {
         (yyval.c_string) = yr_strdup("");
 
         if ((yyval.c_string) == NULL)
           fail_with_error(ERROR_INSUFFICIENT_MEMORY);
       }
-#line 3149 "libyara/grammar.c"
+#line 3157 "libyara/grammar.c"
     break;
 
   case 71: /* arguments: arguments_list  */
-#line 1193 "libyara/grammar.y"
+#line 1201 "libyara/grammar.y"
                       { (yyval.c_string) = (yyvsp[0].c_string); }
-#line 3155 "libyara/grammar.c"
+#line 3163 "libyara/grammar.c"
     break;
 
   case 72: /* arguments_list: expression  */
-#line 1198 "libyara/grammar.y"
+#line 1206 "libyara/grammar.y"
       {
         (yyval.c_string) = (char*) yr_malloc(YR_MAX_FUNCTION_ARGS + 1);
 
@@ -3190,11 +3198,11 @@ yyreduce:
             assert(compiler->last_error != ERROR_SUCCESS);
         }
       }
-#line 3194 "libyara/grammar.c"
+#line 3202 "libyara/grammar.c"
     break;
 
   case 73: /* arguments_list: arguments_list ',' expression  */
-#line 1233 "libyara/grammar.y"
+#line 1241 "libyara/grammar.y"
       {
         int result = ERROR_SUCCESS;
 
@@ -3243,11 +3251,11 @@ yyreduce:
 
         (yyval.c_string) = (yyvsp[-2].c_string);
       }
-#line 3247 "libyara/grammar.c"
+#line 3255 "libyara/grammar.c"
     break;
 
   case 74: /* regexp: "regular expression"  */
-#line 1286 "libyara/grammar.y"
+#line 1294 "libyara/grammar.y"
       {
         YR_ARENA_REF re_ref;
         RE_ERROR error;
@@ -3298,11 +3306,11 @@ yyreduce:
 
         (yyval.expression).type = EXPRESSION_TYPE_REGEXP;
       }
-#line 3302 "libyara/grammar.c"
+#line 3310 "libyara/grammar.c"
     break;
 
   case 75: /* boolean_expression: expression  */
-#line 1341 "libyara/grammar.y"
+#line 1349 "libyara/grammar.y"
       {
         if ((yyvsp[0].expression).type == EXPRESSION_TYPE_STRING)
         {
@@ -3330,33 +3338,33 @@ yyreduce:
 
         (yyval.expression).type = EXPRESSION_TYPE_BOOLEAN;
       }
-#line 3334 "libyara/grammar.c"
+#line 3342 "libyara/grammar.c"
     break;
 
   case 76: /* expression: "<true>"  */
-#line 1372 "libyara/grammar.y"
+#line 1380 "libyara/grammar.y"
       {
         fail_if_error(yr_parser_emit_push_const(yyscanner, 1));
 
         (yyval.expression).type = EXPRESSION_TYPE_BOOLEAN;
         (yyval.expression).required_strings.count = 0;
       }
-#line 3345 "libyara/grammar.c"
+#line 3353 "libyara/grammar.c"
     break;
 
   case 77: /* expression: "<false>"  */
-#line 1379 "libyara/grammar.y"
+#line 1387 "libyara/grammar.y"
       {
         fail_if_error(yr_parser_emit_push_const(yyscanner, 0));
 
         (yyval.expression).type = EXPRESSION_TYPE_BOOLEAN;
         (yyval.expression).required_strings.count = 0;
       }
-#line 3356 "libyara/grammar.c"
+#line 3364 "libyara/grammar.c"
     break;
 
   case 78: /* expression: primary_expression "<matches>" regexp  */
-#line 1386 "libyara/grammar.y"
+#line 1394 "libyara/grammar.y"
       {
         check_type((yyvsp[-2].expression), EXPRESSION_TYPE_STRING, "matches");
         check_type((yyvsp[0].expression), EXPRESSION_TYPE_REGEXP, "matches");
@@ -3369,11 +3377,11 @@ yyreduce:
         (yyval.expression).type = EXPRESSION_TYPE_BOOLEAN;
         (yyval.expression).required_strings.count = 0;
       }
-#line 3373 "libyara/grammar.c"
+#line 3381 "libyara/grammar.c"
     break;
 
   case 79: /* expression: primary_expression "<contains>" primary_expression  */
-#line 1399 "libyara/grammar.y"
+#line 1407 "libyara/grammar.y"
       {
         check_type((yyvsp[-2].expression), EXPRESSION_TYPE_STRING, "contains");
         check_type((yyvsp[0].expression), EXPRESSION_TYPE_STRING, "contains");
@@ -3384,11 +3392,11 @@ yyreduce:
         (yyval.expression).type = EXPRESSION_TYPE_BOOLEAN;
         (yyval.expression).required_strings.count = 0;
       }
-#line 3388 "libyara/grammar.c"
+#line 3396 "libyara/grammar.c"
     break;
 
   case 80: /* expression: primary_expression "<icontains>" primary_expression  */
-#line 1410 "libyara/grammar.y"
+#line 1418 "libyara/grammar.y"
       {
         check_type((yyvsp[-2].expression), EXPRESSION_TYPE_STRING, "icontains");
         check_type((yyvsp[0].expression), EXPRESSION_TYPE_STRING, "icontains");
@@ -3399,11 +3407,11 @@ yyreduce:
         (yyval.expression).type = EXPRESSION_TYPE_BOOLEAN;
         (yyval.expression).required_strings.count = 0;
       }
-#line 3403 "libyara/grammar.c"
+#line 3411 "libyara/grammar.c"
     break;
 
   case 81: /* expression: primary_expression "<startswith>" primary_expression  */
-#line 1421 "libyara/grammar.y"
+#line 1429 "libyara/grammar.y"
       {
         check_type((yyvsp[-2].expression), EXPRESSION_TYPE_STRING, "startswith");
         check_type((yyvsp[0].expression), EXPRESSION_TYPE_STRING, "startswith");
@@ -3414,11 +3422,11 @@ yyreduce:
         (yyval.expression).type = EXPRESSION_TYPE_BOOLEAN;
         (yyval.expression).required_strings.count = 0;
       }
-#line 3418 "libyara/grammar.c"
+#line 3426 "libyara/grammar.c"
     break;
 
   case 82: /* expression: primary_expression "<istartswith>" primary_expression  */
-#line 1432 "libyara/grammar.y"
+#line 1440 "libyara/grammar.y"
       {
         check_type((yyvsp[-2].expression), EXPRESSION_TYPE_STRING, "istartswith");
         check_type((yyvsp[0].expression), EXPRESSION_TYPE_STRING, "istartswith");
@@ -3429,11 +3437,11 @@ yyreduce:
         (yyval.expression).type = EXPRESSION_TYPE_BOOLEAN;
         (yyval.expression).required_strings.count = 0;
       }
-#line 3433 "libyara/grammar.c"
+#line 3441 "libyara/grammar.c"
     break;
 
   case 83: /* expression: primary_expression "<endswith>" primary_expression  */
-#line 1443 "libyara/grammar.y"
+#line 1451 "libyara/grammar.y"
       {
         check_type((yyvsp[-2].expression), EXPRESSION_TYPE_STRING, "endswith");
         check_type((yyvsp[0].expression), EXPRESSION_TYPE_STRING, "endswith");
@@ -3444,11 +3452,11 @@ yyreduce:
         (yyval.expression).type = EXPRESSION_TYPE_BOOLEAN;
         (yyval.expression).required_strings.count = 0;
       }
-#line 3448 "libyara/grammar.c"
+#line 3456 "libyara/grammar.c"
     break;
 
   case 84: /* expression: primary_expression "<iendswith>" primary_expression  */
-#line 1454 "libyara/grammar.y"
+#line 1462 "libyara/grammar.y"
       {
         check_type((yyvsp[-2].expression), EXPRESSION_TYPE_STRING, "iendswith");
         check_type((yyvsp[0].expression), EXPRESSION_TYPE_STRING, "iendswith");
@@ -3459,11 +3467,11 @@ yyreduce:
         (yyval.expression).type = EXPRESSION_TYPE_BOOLEAN;
         (yyval.expression).required_strings.count = 0;
       }
-#line 3463 "libyara/grammar.c"
+#line 3471 "libyara/grammar.c"
     break;
 
   case 85: /* expression: primary_expression "<iequals>" primary_expression  */
-#line 1465 "libyara/grammar.y"
+#line 1473 "libyara/grammar.y"
       {
         check_type((yyvsp[-2].expression), EXPRESSION_TYPE_STRING, "iequals");
         check_type((yyvsp[0].expression), EXPRESSION_TYPE_STRING, "iequals");
@@ -3474,11 +3482,11 @@ yyreduce:
         (yyval.expression).type = EXPRESSION_TYPE_BOOLEAN;
         (yyval.expression).required_strings.count = 0;
       }
-#line 3478 "libyara/grammar.c"
+#line 3486 "libyara/grammar.c"
     break;
 
   case 86: /* expression: "string identifier"  */
-#line 1476 "libyara/grammar.y"
+#line 1484 "libyara/grammar.y"
       {
         int result = yr_parser_reduce_string_identifier(
             yyscanner,
@@ -3493,11 +3501,11 @@ yyreduce:
         (yyval.expression).type = EXPRESSION_TYPE_BOOLEAN;
         (yyval.expression).required_strings.count = 1;
       }
-#line 3497 "libyara/grammar.c"
+#line 3505 "libyara/grammar.c"
     break;
 
   case 87: /* expression: "string identifier" "<at>" primary_expression  */
-#line 1491 "libyara/grammar.y"
+#line 1499 "libyara/grammar.y"
       {
         int result;
 
@@ -3513,11 +3521,11 @@ yyreduce:
         (yyval.expression).required_strings.count = 1;
         (yyval.expression).type = EXPRESSION_TYPE_BOOLEAN;
       }
-#line 3517 "libyara/grammar.c"
+#line 3525 "libyara/grammar.c"
     break;
 
   case 88: /* expression: "string identifier" "<in>" range  */
-#line 1507 "libyara/grammar.y"
+#line 1515 "libyara/grammar.y"
       {
         int result = yr_parser_reduce_string_identifier(
             yyscanner, (yyvsp[-2].c_string), OP_FOUND_IN, YR_UNDEFINED);
@@ -3529,11 +3537,11 @@ yyreduce:
         (yyval.expression).required_strings.count = 1;
         (yyval.expression).type = EXPRESSION_TYPE_BOOLEAN;
       }
-#line 3533 "libyara/grammar.c"
+#line 3541 "libyara/grammar.c"
     break;
 
   case 89: /* expression: "<for>" for_expression error  */
-#line 1519 "libyara/grammar.y"
+#line 1527 "libyara/grammar.y"
       {
         // Free all the loop variable identifiers, including the variables for
         // the current loop (represented by loop_index), and set loop_index to
@@ -3550,11 +3558,11 @@ yyreduce:
         compiler->loop_index = -1;
         YYERROR;
       }
-#line 3554 "libyara/grammar.c"
+#line 3562 "libyara/grammar.c"
     break;
 
   case 90: /* $@6: %empty  */
-#line 1593 "libyara/grammar.y"
+#line 1601 "libyara/grammar.y"
       {
         // var_frame is used for accessing local variables used in this loop.
         // All local variables are accessed using var_frame as a reference,
@@ -3592,11 +3600,11 @@ yyreduce:
         fail_if_error(yr_parser_emit_with_arg(
             yyscanner, OP_POP_M, var_frame + 2, NULL, NULL));
       }
-#line 3596 "libyara/grammar.c"
+#line 3604 "libyara/grammar.c"
     break;
 
   case 91: /* $@7: %empty  */
-#line 1631 "libyara/grammar.y"
+#line 1639 "libyara/grammar.y"
       {
         YR_LOOP_CONTEXT* loop_ctx = &compiler->loop[compiler->loop_index];
         YR_FIXUP* fixup;
@@ -3645,11 +3653,11 @@ yyreduce:
 
         loop_ctx->start_ref = loop_start_ref;
       }
-#line 3649 "libyara/grammar.c"
+#line 3657 "libyara/grammar.c"
     break;
 
   case 92: /* expression: "<for>" for_expression $@6 for_iteration ':' $@7 '(' boolean_expression ')'  */
-#line 1680 "libyara/grammar.y"
+#line 1688 "libyara/grammar.y"
       {
         int32_t jmp_offset;
         YR_FIXUP* fixup;
@@ -3730,11 +3738,11 @@ yyreduce:
         (yyval.expression).type = EXPRESSION_TYPE_BOOLEAN;
         (yyval.expression).required_strings.count = 0;
       }
-#line 3734 "libyara/grammar.c"
+#line 3742 "libyara/grammar.c"
     break;
 
   case 93: /* expression: for_expression "<of>" string_set  */
-#line 1761 "libyara/grammar.y"
+#line 1769 "libyara/grammar.y"
       {
         if ((yyvsp[-2].expression).type == EXPRESSION_TYPE_INTEGER && (yyvsp[-2].expression).value.integer > (yyvsp[0].integer))
         {
@@ -3757,11 +3765,11 @@ yyreduce:
 
         (yyval.expression).type = EXPRESSION_TYPE_BOOLEAN;
       }
-#line 3761 "libyara/grammar.c"
+#line 3769 "libyara/grammar.c"
     break;
 
   case 94: /* expression: for_expression "<of>" rule_set  */
-#line 1784 "libyara/grammar.y"
+#line 1792 "libyara/grammar.y"
       {
         if ((yyvsp[-2].expression).type == EXPRESSION_TYPE_INTEGER && (yyvsp[-2].expression).value.integer > (yyvsp[0].integer))
         {
@@ -3773,11 +3781,11 @@ yyreduce:
         (yyval.expression).type = EXPRESSION_TYPE_BOOLEAN;
         (yyval.expression).required_strings.count = 0;
       }
-#line 3777 "libyara/grammar.c"
+#line 3785 "libyara/grammar.c"
     break;
 
   case 95: /* expression: primary_expression '%' "<of>" string_set  */
-#line 1796 "libyara/grammar.y"
+#line 1804 "libyara/grammar.y"
       {
         check_type((yyvsp[-3].expression), EXPRESSION_TYPE_INTEGER, "%");
 
@@ -3805,11 +3813,11 @@ yyreduce:
 
         yr_parser_emit_with_arg(yyscanner, OP_OF_PERCENT, OF_STRING_SET, NULL, NULL);
       }
-#line 3809 "libyara/grammar.c"
+#line 3817 "libyara/grammar.c"
     break;
 
   case 96: /* expression: primary_expression '%' "<of>" rule_set  */
-#line 1824 "libyara/grammar.y"
+#line 1832 "libyara/grammar.y"
       {
         check_type((yyvsp[-3].expression), EXPRESSION_TYPE_INTEGER, "%");
 
@@ -3828,11 +3836,11 @@ yyreduce:
 
         yr_parser_emit_with_arg(yyscanner, OP_OF_PERCENT, OF_RULE_SET, NULL, NULL);
       }
-#line 3832 "libyara/grammar.c"
+#line 3840 "libyara/grammar.c"
     break;
 
   case 97: /* expression: for_expression "<of>" string_set "<in>" range  */
-#line 1843 "libyara/grammar.y"
+#line 1851 "libyara/grammar.y"
       {
         if ((yyvsp[-4].expression).type == EXPRESSION_TYPE_INTEGER && (yyvsp[-4].expression).value.integer > (yyvsp[-2].integer))
         {
@@ -3855,11 +3863,11 @@ yyreduce:
 
         (yyval.expression).type = EXPRESSION_TYPE_BOOLEAN;
       }
-#line 3859 "libyara/grammar.c"
+#line 3867 "libyara/grammar.c"
     break;
 
   case 98: /* expression: for_expression "<of>" string_set "<at>" primary_expression  */
-#line 1866 "libyara/grammar.y"
+#line 1874 "libyara/grammar.y"
       {
         if ((yyvsp[0].expression).type != EXPRESSION_TYPE_INTEGER)
         {
@@ -3907,32 +3915,32 @@ yyreduce:
 
         (yyval.expression).type = EXPRESSION_TYPE_BOOLEAN;
       }
-#line 3911 "libyara/grammar.c"
+#line 3919 "libyara/grammar.c"
     break;
 
   case 99: /* expression: "<not>" boolean_expression  */
-#line 1914 "libyara/grammar.y"
+#line 1922 "libyara/grammar.y"
       {
         yr_parser_emit(yyscanner, OP_NOT, NULL);
 
         (yyval.expression).type = EXPRESSION_TYPE_BOOLEAN;
         (yyval.expression).required_strings.count = 0;
       }
-#line 3922 "libyara/grammar.c"
+#line 3930 "libyara/grammar.c"
     break;
 
   case 100: /* expression: "<defined>" boolean_expression  */
-#line 1921 "libyara/grammar.y"
+#line 1929 "libyara/grammar.y"
       {
         yr_parser_emit(yyscanner, OP_DEFINED, NULL);
         (yyval.expression).type = EXPRESSION_TYPE_BOOLEAN;
         (yyval.expression).required_strings.count = 0;
       }
-#line 3932 "libyara/grammar.c"
+#line 3940 "libyara/grammar.c"
     break;
 
   case 101: /* $@8: %empty  */
-#line 1927 "libyara/grammar.y"
+#line 1935 "libyara/grammar.y"
       {
         YR_FIXUP* fixup;
         YR_ARENA_REF jmp_offset_ref;
@@ -3954,11 +3962,11 @@ yyreduce:
         fixup->next = compiler->fixup_stack_head;
         compiler->fixup_stack_head = fixup;
       }
-#line 3958 "libyara/grammar.c"
+#line 3966 "libyara/grammar.c"
     break;
 
   case 102: /* expression: boolean_expression "<and>" $@8 boolean_expression  */
-#line 1949 "libyara/grammar.y"
+#line 1957 "libyara/grammar.y"
       {
         YR_FIXUP* fixup;
 
@@ -3982,11 +3990,11 @@ yyreduce:
         (yyval.expression).type = EXPRESSION_TYPE_BOOLEAN;
         (yyval.expression).required_strings.count = (yyvsp[0].expression).required_strings.count + (yyvsp[-3].expression).required_strings.count;
       }
-#line 3986 "libyara/grammar.c"
+#line 3994 "libyara/grammar.c"
     break;
 
   case 103: /* $@9: %empty  */
-#line 1973 "libyara/grammar.y"
+#line 1981 "libyara/grammar.y"
       {
         YR_FIXUP* fixup;
         YR_ARENA_REF jmp_offset_ref;
@@ -4007,11 +4015,11 @@ yyreduce:
         fixup->next = compiler->fixup_stack_head;
         compiler->fixup_stack_head = fixup;
       }
-#line 4011 "libyara/grammar.c"
+#line 4019 "libyara/grammar.c"
     break;
 
   case 104: /* expression: boolean_expression "<or>" $@9 boolean_expression  */
-#line 1994 "libyara/grammar.y"
+#line 2002 "libyara/grammar.y"
       {
         YR_FIXUP* fixup;
 
@@ -4041,11 +4049,11 @@ yyreduce:
           (yyval.expression).required_strings.count = (yyvsp[-3].expression).required_strings.count;
         }
       }
-#line 4045 "libyara/grammar.c"
+#line 4053 "libyara/grammar.c"
     break;
 
   case 105: /* expression: primary_expression "<" primary_expression  */
-#line 2024 "libyara/grammar.y"
+#line 2032 "libyara/grammar.y"
       {
         fail_if_error(yr_parser_reduce_operation(
             yyscanner, "<", (yyvsp[-2].expression), (yyvsp[0].expression)));
@@ -4053,11 +4061,11 @@ yyreduce:
         (yyval.expression).type = EXPRESSION_TYPE_BOOLEAN;
         (yyval.expression).required_strings.count = 0;
       }
-#line 4057 "libyara/grammar.c"
+#line 4065 "libyara/grammar.c"
     break;
 
   case 106: /* expression: primary_expression ">" primary_expression  */
-#line 2032 "libyara/grammar.y"
+#line 2040 "libyara/grammar.y"
       {
         fail_if_error(yr_parser_reduce_operation(
             yyscanner, ">", (yyvsp[-2].expression), (yyvsp[0].expression)));
@@ -4065,11 +4073,11 @@ yyreduce:
         (yyval.expression).type = EXPRESSION_TYPE_BOOLEAN;
         (yyval.expression).required_strings.count = 0;
       }
-#line 4069 "libyara/grammar.c"
+#line 4077 "libyara/grammar.c"
     break;
 
   case 107: /* expression: primary_expression "<=" primary_expression  */
-#line 2040 "libyara/grammar.y"
+#line 2048 "libyara/grammar.y"
       {
         fail_if_error(yr_parser_reduce_operation(
             yyscanner, "<=", (yyvsp[-2].expression), (yyvsp[0].expression)));
@@ -4077,11 +4085,11 @@ yyreduce:
         (yyval.expression).type = EXPRESSION_TYPE_BOOLEAN;
         (yyval.expression).required_strings.count = 0;
       }
-#line 4081 "libyara/grammar.c"
+#line 4089 "libyara/grammar.c"
     break;
 
   case 108: /* expression: primary_expression ">=" primary_expression  */
-#line 2048 "libyara/grammar.y"
+#line 2056 "libyara/grammar.y"
       {
         fail_if_error(yr_parser_reduce_operation(
             yyscanner, ">=", (yyvsp[-2].expression), (yyvsp[0].expression)));
@@ -4089,11 +4097,11 @@ yyreduce:
         (yyval.expression).type = EXPRESSION_TYPE_BOOLEAN;
         (yyval.expression).required_strings.count = 0;
       }
-#line 4093 "libyara/grammar.c"
+#line 4101 "libyara/grammar.c"
     break;
 
   case 109: /* expression: primary_expression "==" primary_expression  */
-#line 2056 "libyara/grammar.y"
+#line 2064 "libyara/grammar.y"
       {
         fail_if_error(yr_parser_reduce_operation(
             yyscanner, "==", (yyvsp[-2].expression), (yyvsp[0].expression)));
@@ -4101,11 +4109,11 @@ yyreduce:
         (yyval.expression).type = EXPRESSION_TYPE_BOOLEAN;
         (yyval.expression).required_strings.count = 0;
       }
-#line 4105 "libyara/grammar.c"
+#line 4113 "libyara/grammar.c"
     break;
 
   case 110: /* expression: primary_expression "!=" primary_expression  */
-#line 2064 "libyara/grammar.y"
+#line 2072 "libyara/grammar.y"
       {
         fail_if_error(yr_parser_reduce_operation(
             yyscanner, "!=", (yyvsp[-2].expression), (yyvsp[0].expression)));
@@ -4113,33 +4121,33 @@ yyreduce:
         (yyval.expression).type = EXPRESSION_TYPE_BOOLEAN;
         (yyval.expression).required_strings.count = 0;
       }
-#line 4117 "libyara/grammar.c"
-    break;
-
-  case 111: /* expression: primary_expression  */
-#line 2072 "libyara/grammar.y"
-      {
-        (yyval.expression) = (yyvsp[0].expression);
-      }
 #line 4125 "libyara/grammar.c"
     break;
 
-  case 112: /* expression: '(' expression ')'  */
-#line 2076 "libyara/grammar.y"
+  case 111: /* expression: primary_expression  */
+#line 2080 "libyara/grammar.y"
       {
-        (yyval.expression) = (yyvsp[-1].expression);
+        (yyval.expression) = (yyvsp[0].expression);
       }
 #line 4133 "libyara/grammar.c"
     break;
 
+  case 112: /* expression: '(' expression ')'  */
+#line 2084 "libyara/grammar.y"
+      {
+        (yyval.expression) = (yyvsp[-1].expression);
+      }
+#line 4141 "libyara/grammar.c"
+    break;
+
   case 113: /* for_iteration: for_variables "<in>" iterator  */
-#line 2083 "libyara/grammar.y"
+#line 2091 "libyara/grammar.y"
                                   { (yyval.integer) = FOR_ITERATION_ITERATOR; }
-#line 4139 "libyara/grammar.c"
+#line 4147 "libyara/grammar.c"
     break;
 
   case 114: /* for_iteration: "<of>" string_iterator  */
-#line 2085 "libyara/grammar.y"
+#line 2093 "libyara/grammar.y"
       {
         int var_frame;
         int result = ERROR_SUCCESS;
@@ -4160,11 +4168,11 @@ yyreduce:
 
         (yyval.integer) = FOR_ITERATION_STRING_SET;
       }
-#line 4164 "libyara/grammar.c"
+#line 4172 "libyara/grammar.c"
     break;
 
   case 115: /* for_variables: "identifier"  */
-#line 2110 "libyara/grammar.y"
+#line 2118 "libyara/grammar.y"
       {
         int result = ERROR_SUCCESS;
 
@@ -4184,11 +4192,11 @@ yyreduce:
 
         assert(loop_ctx->vars_count <= YR_MAX_LOOP_VARS);
       }
-#line 4188 "libyara/grammar.c"
+#line 4196 "libyara/grammar.c"
     break;
 
   case 116: /* for_variables: for_variables ',' "identifier"  */
-#line 2130 "libyara/grammar.y"
+#line 2138 "libyara/grammar.y"
       {
         int result = ERROR_SUCCESS;
 
@@ -4213,11 +4221,11 @@ yyreduce:
 
         loop_ctx->vars[loop_ctx->vars_count++].identifier.ptr = (yyvsp[0].c_string);
       }
-#line 4217 "libyara/grammar.c"
+#line 4225 "libyara/grammar.c"
     break;
 
   case 117: /* iterator: identifier  */
-#line 2158 "libyara/grammar.y"
+#line 2166 "libyara/grammar.y"
       {
         YR_LOOP_CONTEXT* loop_ctx = &compiler->loop[compiler->loop_index];
 
@@ -4291,11 +4299,11 @@ yyreduce:
 
         fail_if_error(result);
       }
-#line 4295 "libyara/grammar.c"
+#line 4303 "libyara/grammar.c"
     break;
 
   case 118: /* iterator: set  */
-#line 2232 "libyara/grammar.y"
+#line 2240 "libyara/grammar.y"
       {
         int result = ERROR_SUCCESS;
 
@@ -4323,11 +4331,11 @@ yyreduce:
 
         fail_if_error(result);
       }
-#line 4327 "libyara/grammar.c"
+#line 4335 "libyara/grammar.c"
     break;
 
   case 119: /* set: '(' enumeration ')'  */
-#line 2264 "libyara/grammar.y"
+#line 2272 "libyara/grammar.y"
       {
         // $2.count contains the number of items in the enumeration
         fail_if_error(yr_parser_emit_push_const(yyscanner, (yyvsp[-1].enumeration).count));
@@ -4345,22 +4353,22 @@ yyreduce:
 
         (yyval.enumeration).type = (yyvsp[-1].enumeration).type;
       }
-#line 4349 "libyara/grammar.c"
+#line 4357 "libyara/grammar.c"
     break;
 
   case 120: /* set: range  */
-#line 2282 "libyara/grammar.y"
+#line 2290 "libyara/grammar.y"
       {
         fail_if_error(yr_parser_emit(
             yyscanner, OP_ITER_START_INT_RANGE, NULL));
 
         (yyval.enumeration).type = EXPRESSION_TYPE_INTEGER;
       }
-#line 4360 "libyara/grammar.c"
+#line 4368 "libyara/grammar.c"
     break;
 
   case 121: /* range: '(' primary_expression ".." primary_expression ')'  */
-#line 2293 "libyara/grammar.y"
+#line 2301 "libyara/grammar.y"
       {
         int result = ERROR_SUCCESS;
 
@@ -4399,11 +4407,11 @@ yyreduce:
 
         fail_if_error(result);
       }
-#line 4403 "libyara/grammar.c"
+#line 4411 "libyara/grammar.c"
     break;
 
   case 122: /* enumeration: primary_expression  */
-#line 2336 "libyara/grammar.y"
+#line 2344 "libyara/grammar.y"
       {
         int result = ERROR_SUCCESS;
 
@@ -4419,11 +4427,11 @@ yyreduce:
         (yyval.enumeration).type = (yyvsp[0].expression).type;
         (yyval.enumeration).count = 1;
       }
-#line 4423 "libyara/grammar.c"
+#line 4431 "libyara/grammar.c"
     break;
 
   case 123: /* enumeration: enumeration ',' primary_expression  */
-#line 2352 "libyara/grammar.y"
+#line 2360 "libyara/grammar.y"
       {
         int result = ERROR_SUCCESS;
 
@@ -4439,38 +4447,38 @@ yyreduce:
         (yyval.enumeration).type = (yyvsp[-2].enumeration).type;
         (yyval.enumeration).count = (yyvsp[-2].enumeration).count + 1;
       }
-#line 4443 "libyara/grammar.c"
+#line 4451 "libyara/grammar.c"
     break;
 
   case 124: /* string_iterator: string_set  */
-#line 2372 "libyara/grammar.y"
+#line 2380 "libyara/grammar.y"
       {
         fail_if_error(yr_parser_emit_push_const(yyscanner, (yyvsp[0].integer)));
         fail_if_error(yr_parser_emit(yyscanner, OP_ITER_START_STRING_SET,
             NULL));
       }
-#line 4453 "libyara/grammar.c"
+#line 4461 "libyara/grammar.c"
     break;
 
   case 125: /* $@10: %empty  */
-#line 2381 "libyara/grammar.y"
+#line 2389 "libyara/grammar.y"
       {
         // Push end-of-list marker
         yr_parser_emit_push_const(yyscanner, YR_UNDEFINED);
       }
-#line 4462 "libyara/grammar.c"
-    break;
-
-  case 126: /* string_set: '(' $@10 string_enumeration ')'  */
-#line 2386 "libyara/grammar.y"
-      {
-        (yyval.integer) = (yyvsp[-1].integer);
-      }
 #line 4470 "libyara/grammar.c"
     break;
 
+  case 126: /* string_set: '(' $@10 string_enumeration ')'  */
+#line 2394 "libyara/grammar.y"
+      {
+        (yyval.integer) = (yyvsp[-1].integer);
+      }
+#line 4478 "libyara/grammar.c"
+    break;
+
   case 127: /* string_set: "<them>"  */
-#line 2390 "libyara/grammar.y"
+#line 2398 "libyara/grammar.y"
       {
         fail_if_error(yr_parser_emit_push_const(yyscanner, YR_UNDEFINED));
 
@@ -4480,23 +4488,23 @@ yyreduce:
 
         (yyval.integer) = count;
       }
-#line 4484 "libyara/grammar.c"
+#line 4492 "libyara/grammar.c"
     break;
 
   case 128: /* string_enumeration: string_enumeration_item  */
-#line 2403 "libyara/grammar.y"
+#line 2411 "libyara/grammar.y"
                               { (yyval.integer) = (yyvsp[0].integer); }
-#line 4490 "libyara/grammar.c"
+#line 4498 "libyara/grammar.c"
     break;
 
   case 129: /* string_enumeration: string_enumeration ',' string_enumeration_item  */
-#line 2404 "libyara/grammar.y"
+#line 2412 "libyara/grammar.y"
                                                      { (yyval.integer) = (yyvsp[-2].integer) + (yyvsp[0].integer); }
-#line 4496 "libyara/grammar.c"
+#line 4504 "libyara/grammar.c"
     break;
 
   case 130: /* string_enumeration_item: "string identifier"  */
-#line 2410 "libyara/grammar.y"
+#line 2418 "libyara/grammar.y"
       {
         int count = 0;
         int result = yr_parser_emit_pushes_for_strings(yyscanner, (yyvsp[0].c_string), &count);
@@ -4506,11 +4514,11 @@ yyreduce:
 
         (yyval.integer) = count;
       }
-#line 4510 "libyara/grammar.c"
+#line 4518 "libyara/grammar.c"
     break;
 
   case 131: /* string_enumeration_item: "string identifier with wildcard"  */
-#line 2420 "libyara/grammar.y"
+#line 2428 "libyara/grammar.y"
       {
         int count = 0;
         int result = yr_parser_emit_pushes_for_strings(yyscanner, (yyvsp[0].c_string), &count);
@@ -4520,40 +4528,40 @@ yyreduce:
 
         (yyval.integer) = count;
       }
-#line 4524 "libyara/grammar.c"
+#line 4532 "libyara/grammar.c"
     break;
 
   case 132: /* $@11: %empty  */
-#line 2434 "libyara/grammar.y"
+#line 2442 "libyara/grammar.y"
       {
         // Push end-of-list marker
         yr_parser_emit_push_const(yyscanner, YR_UNDEFINED);
       }
-#line 4533 "libyara/grammar.c"
-    break;
-
-  case 133: /* rule_set: '(' $@11 rule_enumeration ')'  */
-#line 2439 "libyara/grammar.y"
-      {
-        (yyval.integer) = (yyvsp[-1].integer);
-      }
 #line 4541 "libyara/grammar.c"
     break;
 
+  case 133: /* rule_set: '(' $@11 rule_enumeration ')'  */
+#line 2447 "libyara/grammar.y"
+      {
+        (yyval.integer) = (yyvsp[-1].integer);
+      }
+#line 4549 "libyara/grammar.c"
+    break;
+
   case 134: /* rule_enumeration: rule_enumeration_item  */
-#line 2446 "libyara/grammar.y"
+#line 2454 "libyara/grammar.y"
                             { (yyval.integer) = (yyvsp[0].integer); }
-#line 4547 "libyara/grammar.c"
+#line 4555 "libyara/grammar.c"
     break;
 
   case 135: /* rule_enumeration: rule_enumeration ',' rule_enumeration_item  */
-#line 2447 "libyara/grammar.y"
+#line 2455 "libyara/grammar.y"
                                                  { (yyval.integer) = (yyvsp[-2].integer) + (yyvsp[0].integer); }
-#line 4553 "libyara/grammar.c"
+#line 4561 "libyara/grammar.c"
     break;
 
   case 136: /* rule_enumeration_item: "identifier"  */
-#line 2453 "libyara/grammar.y"
+#line 2461 "libyara/grammar.y"
       {
         int result = ERROR_SUCCESS;
 
@@ -4586,11 +4594,11 @@ yyreduce:
 
         (yyval.integer) = 1;
       }
-#line 4590 "libyara/grammar.c"
+#line 4598 "libyara/grammar.c"
     break;
 
   case 137: /* rule_enumeration_item: "identifier" '*'  */
-#line 2486 "libyara/grammar.y"
+#line 2494 "libyara/grammar.y"
       {
         int count = 0;
         YR_NAMESPACE* ns = (YR_NAMESPACE*) yr_arena_get_ptr(
@@ -4611,11 +4619,11 @@ yyreduce:
 
         (yyval.integer) = count;
       }
-#line 4615 "libyara/grammar.c"
+#line 4623 "libyara/grammar.c"
     break;
 
   case 138: /* for_expression: primary_expression  */
-#line 2511 "libyara/grammar.y"
+#line 2519 "libyara/grammar.y"
       {
         if ((yyvsp[0].expression).type == EXPRESSION_TYPE_INTEGER && !IS_UNDEFINED((yyvsp[0].expression).value.integer))
         {
@@ -4671,57 +4679,57 @@ yyreduce:
 
         (yyval.expression).value.integer = (yyvsp[0].expression).value.integer;
       }
-#line 4675 "libyara/grammar.c"
-    break;
-
-  case 139: /* for_expression: for_quantifier  */
-#line 2567 "libyara/grammar.y"
-      {
-        (yyval.expression).value.integer = (yyvsp[0].expression).value.integer;
-      }
 #line 4683 "libyara/grammar.c"
     break;
 
+  case 139: /* for_expression: for_quantifier  */
+#line 2575 "libyara/grammar.y"
+      {
+        (yyval.expression).value.integer = (yyvsp[0].expression).value.integer;
+      }
+#line 4691 "libyara/grammar.c"
+    break;
+
   case 140: /* for_quantifier: "<all>"  */
-#line 2574 "libyara/grammar.y"
+#line 2582 "libyara/grammar.y"
       {
         yr_parser_emit_push_const(yyscanner, YR_UNDEFINED);
         (yyval.expression).type = EXPRESSION_TYPE_QUANTIFIER;
         (yyval.expression).value.integer = FOR_EXPRESSION_ALL;
      }
-#line 4693 "libyara/grammar.c"
+#line 4701 "libyara/grammar.c"
     break;
 
   case 141: /* for_quantifier: "<any>"  */
-#line 2580 "libyara/grammar.y"
+#line 2588 "libyara/grammar.y"
       {
         yr_parser_emit_push_const(yyscanner, 1);
         (yyval.expression).type = EXPRESSION_TYPE_QUANTIFIER;
         (yyval.expression).value.integer = FOR_EXPRESSION_ANY;
       }
-#line 4703 "libyara/grammar.c"
+#line 4711 "libyara/grammar.c"
     break;
 
   case 142: /* for_quantifier: "<none>"  */
-#line 2586 "libyara/grammar.y"
+#line 2594 "libyara/grammar.y"
       {
         yr_parser_emit_push_const(yyscanner, 0);
         (yyval.expression).type = EXPRESSION_TYPE_QUANTIFIER;
         (yyval.expression).value.integer = FOR_EXPRESSION_NONE;
       }
-#line 4713 "libyara/grammar.c"
-    break;
-
-  case 143: /* primary_expression: '(' primary_expression ')'  */
-#line 2596 "libyara/grammar.y"
-      {
-        (yyval.expression) = (yyvsp[-1].expression);
-      }
 #line 4721 "libyara/grammar.c"
     break;
 
+  case 143: /* primary_expression: '(' primary_expression ')'  */
+#line 2604 "libyara/grammar.y"
+      {
+        (yyval.expression) = (yyvsp[-1].expression);
+      }
+#line 4729 "libyara/grammar.c"
+    break;
+
   case 144: /* primary_expression: "<filesize>"  */
-#line 2600 "libyara/grammar.y"
+#line 2608 "libyara/grammar.y"
       {
         fail_if_error(yr_parser_emit(
             yyscanner, OP_FILESIZE, NULL));
@@ -4729,11 +4737,11 @@ yyreduce:
         (yyval.expression).type = EXPRESSION_TYPE_INTEGER;
         (yyval.expression).value.integer = YR_UNDEFINED;
       }
-#line 4733 "libyara/grammar.c"
+#line 4741 "libyara/grammar.c"
     break;
 
   case 145: /* primary_expression: "<entrypoint>"  */
-#line 2608 "libyara/grammar.y"
+#line 2616 "libyara/grammar.y"
       {
         yywarning(yyscanner,
             "using deprecated \"entrypoint\" keyword. Use the \"entry_point\" "
@@ -4745,11 +4753,11 @@ yyreduce:
         (yyval.expression).type = EXPRESSION_TYPE_INTEGER;
         (yyval.expression).value.integer = YR_UNDEFINED;
       }
-#line 4749 "libyara/grammar.c"
+#line 4757 "libyara/grammar.c"
     break;
 
   case 146: /* primary_expression: "integer function" '(' primary_expression ')'  */
-#line 2620 "libyara/grammar.y"
+#line 2628 "libyara/grammar.y"
       {
         check_type((yyvsp[-1].expression), EXPRESSION_TYPE_INTEGER, "intXXXX or uintXXXX");
 
@@ -4763,33 +4771,33 @@ yyreduce:
         (yyval.expression).type = EXPRESSION_TYPE_INTEGER;
         (yyval.expression).value.integer = YR_UNDEFINED;
       }
-#line 4767 "libyara/grammar.c"
+#line 4775 "libyara/grammar.c"
     break;
 
   case 147: /* primary_expression: "integer number"  */
-#line 2634 "libyara/grammar.y"
+#line 2642 "libyara/grammar.y"
       {
         fail_if_error(yr_parser_emit_push_const(yyscanner, (yyvsp[0].integer)));
 
         (yyval.expression).type = EXPRESSION_TYPE_INTEGER;
         (yyval.expression).value.integer = (yyvsp[0].integer);
       }
-#line 4778 "libyara/grammar.c"
+#line 4786 "libyara/grammar.c"
     break;
 
   case 148: /* primary_expression: "floating point number"  */
-#line 2641 "libyara/grammar.y"
+#line 2649 "libyara/grammar.y"
       {
         fail_if_error(yr_parser_emit_with_arg_double(
             yyscanner, OP_PUSH, (yyvsp[0].double_), NULL, NULL));
 
         (yyval.expression).type = EXPRESSION_TYPE_FLOAT;
       }
-#line 4789 "libyara/grammar.c"
+#line 4797 "libyara/grammar.c"
     break;
 
   case 149: /* primary_expression: "text string"  */
-#line 2648 "libyara/grammar.y"
+#line 2656 "libyara/grammar.y"
       {
         YR_ARENA_REF ref;
 
@@ -4814,11 +4822,11 @@ yyreduce:
         (yyval.expression).type = EXPRESSION_TYPE_STRING;
         (yyval.expression).value.sized_string_ref = ref;
       }
-#line 4818 "libyara/grammar.c"
+#line 4826 "libyara/grammar.c"
     break;
 
   case 150: /* primary_expression: "string count" "<in>" range  */
-#line 2673 "libyara/grammar.y"
+#line 2681 "libyara/grammar.y"
       {
         int result = yr_parser_reduce_string_identifier(
             yyscanner, (yyvsp[-2].c_string), OP_COUNT_IN, YR_UNDEFINED);
@@ -4830,11 +4838,11 @@ yyreduce:
         (yyval.expression).type = EXPRESSION_TYPE_INTEGER;
         (yyval.expression).value.integer = YR_UNDEFINED;
       }
-#line 4834 "libyara/grammar.c"
+#line 4842 "libyara/grammar.c"
     break;
 
   case 151: /* primary_expression: "string count"  */
-#line 2685 "libyara/grammar.y"
+#line 2693 "libyara/grammar.y"
       {
         int result = yr_parser_reduce_string_identifier(
             yyscanner, (yyvsp[0].c_string), OP_COUNT, YR_UNDEFINED);
@@ -4846,11 +4854,11 @@ yyreduce:
         (yyval.expression).type = EXPRESSION_TYPE_INTEGER;
         (yyval.expression).value.integer = YR_UNDEFINED;
       }
-#line 4850 "libyara/grammar.c"
+#line 4858 "libyara/grammar.c"
     break;
 
   case 152: /* primary_expression: "string offset" '[' primary_expression ']'  */
-#line 2697 "libyara/grammar.y"
+#line 2705 "libyara/grammar.y"
       {
         int result = yr_parser_reduce_string_identifier(
             yyscanner, (yyvsp[-3].c_string), OP_OFFSET, YR_UNDEFINED);
@@ -4862,11 +4870,11 @@ yyreduce:
         (yyval.expression).type = EXPRESSION_TYPE_INTEGER;
         (yyval.expression).value.integer = YR_UNDEFINED;
       }
-#line 4866 "libyara/grammar.c"
+#line 4874 "libyara/grammar.c"
     break;
 
   case 153: /* primary_expression: "string offset"  */
-#line 2709 "libyara/grammar.y"
+#line 2717 "libyara/grammar.y"
       {
         int result = yr_parser_emit_push_const(yyscanner, 1);
 
@@ -4881,11 +4889,11 @@ yyreduce:
         (yyval.expression).type = EXPRESSION_TYPE_INTEGER;
         (yyval.expression).value.integer = YR_UNDEFINED;
       }
-#line 4885 "libyara/grammar.c"
+#line 4893 "libyara/grammar.c"
     break;
 
   case 154: /* primary_expression: "string length" '[' primary_expression ']'  */
-#line 2724 "libyara/grammar.y"
+#line 2732 "libyara/grammar.y"
       {
         int result = yr_parser_reduce_string_identifier(
             yyscanner, (yyvsp[-3].c_string), OP_LENGTH, YR_UNDEFINED);
@@ -4897,11 +4905,11 @@ yyreduce:
         (yyval.expression).type = EXPRESSION_TYPE_INTEGER;
         (yyval.expression).value.integer = YR_UNDEFINED;
       }
-#line 4901 "libyara/grammar.c"
+#line 4909 "libyara/grammar.c"
     break;
 
   case 155: /* primary_expression: "string length"  */
-#line 2736 "libyara/grammar.y"
+#line 2744 "libyara/grammar.y"
       {
         int result = yr_parser_emit_push_const(yyscanner, 1);
 
@@ -4916,11 +4924,11 @@ yyreduce:
         (yyval.expression).type = EXPRESSION_TYPE_INTEGER;
         (yyval.expression).value.integer = YR_UNDEFINED;
       }
-#line 4920 "libyara/grammar.c"
+#line 4928 "libyara/grammar.c"
     break;
 
   case 156: /* primary_expression: identifier  */
-#line 2751 "libyara/grammar.y"
+#line 2759 "libyara/grammar.y"
       {
         int result = ERROR_SUCCESS;
 
@@ -4967,11 +4975,11 @@ yyreduce:
 
         fail_if_error(result);
       }
-#line 4971 "libyara/grammar.c"
+#line 4979 "libyara/grammar.c"
     break;
 
   case 157: /* primary_expression: '-' primary_expression  */
-#line 2798 "libyara/grammar.y"
+#line 2806 "libyara/grammar.y"
       {
         int result = ERROR_SUCCESS;
 
@@ -4992,11 +5000,11 @@ yyreduce:
 
         fail_if_error(result);
       }
-#line 4996 "libyara/grammar.c"
+#line 5004 "libyara/grammar.c"
     break;
 
   case 158: /* primary_expression: primary_expression '+' primary_expression  */
-#line 2819 "libyara/grammar.y"
+#line 2827 "libyara/grammar.y"
       {
         int result = yr_parser_reduce_operation(
             yyscanner, "+", (yyvsp[-2].expression), (yyvsp[0].expression));
@@ -5031,11 +5039,11 @@ yyreduce:
 
         fail_if_error(result);
       }
-#line 5035 "libyara/grammar.c"
+#line 5043 "libyara/grammar.c"
     break;
 
   case 159: /* primary_expression: primary_expression '-' primary_expression  */
-#line 2854 "libyara/grammar.y"
+#line 2862 "libyara/grammar.y"
       {
         int result = yr_parser_reduce_operation(
             yyscanner, "-", (yyvsp[-2].expression), (yyvsp[0].expression));
@@ -5070,11 +5078,11 @@ yyreduce:
 
         fail_if_error(result);
       }
-#line 5074 "libyara/grammar.c"
+#line 5082 "libyara/grammar.c"
     break;
 
   case 160: /* primary_expression: primary_expression '*' primary_expression  */
-#line 2889 "libyara/grammar.y"
+#line 2897 "libyara/grammar.y"
       {
         int result = yr_parser_reduce_operation(
             yyscanner, "*", (yyvsp[-2].expression), (yyvsp[0].expression));
@@ -5108,11 +5116,11 @@ yyreduce:
 
         fail_if_error(result);
       }
-#line 5112 "libyara/grammar.c"
+#line 5120 "libyara/grammar.c"
     break;
 
   case 161: /* primary_expression: primary_expression '\\' primary_expression  */
-#line 2923 "libyara/grammar.y"
+#line 2931 "libyara/grammar.y"
       {
         int result = yr_parser_reduce_operation(
             yyscanner, "\\", (yyvsp[-2].expression), (yyvsp[0].expression));
@@ -5143,11 +5151,11 @@ yyreduce:
 
         fail_if_error(result);
       }
-#line 5147 "libyara/grammar.c"
+#line 5155 "libyara/grammar.c"
     break;
 
   case 162: /* primary_expression: primary_expression '%' primary_expression  */
-#line 2954 "libyara/grammar.y"
+#line 2962 "libyara/grammar.y"
       {
         check_type((yyvsp[-2].expression), EXPRESSION_TYPE_INTEGER, "%");
         check_type((yyvsp[0].expression), EXPRESSION_TYPE_INTEGER, "%");
@@ -5169,11 +5177,11 @@ yyreduce:
           fail_if_error(ERROR_DIVISION_BY_ZERO);
         }
       }
-#line 5173 "libyara/grammar.c"
+#line 5181 "libyara/grammar.c"
     break;
 
   case 163: /* primary_expression: primary_expression '^' primary_expression  */
-#line 2976 "libyara/grammar.y"
+#line 2984 "libyara/grammar.y"
       {
         check_type((yyvsp[-2].expression), EXPRESSION_TYPE_INTEGER, "^");
         check_type((yyvsp[0].expression), EXPRESSION_TYPE_INTEGER, "^");
@@ -5183,11 +5191,11 @@ yyreduce:
         (yyval.expression).type = EXPRESSION_TYPE_INTEGER;
         (yyval.expression).value.integer = OPERATION(^, (yyvsp[-2].expression).value.integer, (yyvsp[0].expression).value.integer);
       }
-#line 5187 "libyara/grammar.c"
+#line 5195 "libyara/grammar.c"
     break;
 
   case 164: /* primary_expression: primary_expression '&' primary_expression  */
-#line 2986 "libyara/grammar.y"
+#line 2994 "libyara/grammar.y"
       {
         check_type((yyvsp[-2].expression), EXPRESSION_TYPE_INTEGER, "^");
         check_type((yyvsp[0].expression), EXPRESSION_TYPE_INTEGER, "^");
@@ -5197,11 +5205,11 @@ yyreduce:
         (yyval.expression).type = EXPRESSION_TYPE_INTEGER;
         (yyval.expression).value.integer = OPERATION(&, (yyvsp[-2].expression).value.integer, (yyvsp[0].expression).value.integer);
       }
-#line 5201 "libyara/grammar.c"
+#line 5209 "libyara/grammar.c"
     break;
 
   case 165: /* primary_expression: primary_expression '|' primary_expression  */
-#line 2996 "libyara/grammar.y"
+#line 3004 "libyara/grammar.y"
       {
         check_type((yyvsp[-2].expression), EXPRESSION_TYPE_INTEGER, "|");
         check_type((yyvsp[0].expression), EXPRESSION_TYPE_INTEGER, "|");
@@ -5211,11 +5219,11 @@ yyreduce:
         (yyval.expression).type = EXPRESSION_TYPE_INTEGER;
         (yyval.expression).value.integer = OPERATION(|, (yyvsp[-2].expression).value.integer, (yyvsp[0].expression).value.integer);
       }
-#line 5215 "libyara/grammar.c"
+#line 5223 "libyara/grammar.c"
     break;
 
   case 166: /* primary_expression: '~' primary_expression  */
-#line 3006 "libyara/grammar.y"
+#line 3014 "libyara/grammar.y"
       {
         check_type((yyvsp[0].expression), EXPRESSION_TYPE_INTEGER, "~");
 
@@ -5225,11 +5233,11 @@ yyreduce:
         (yyval.expression).value.integer = ((yyvsp[0].expression).value.integer == YR_UNDEFINED) ?
             YR_UNDEFINED : ~((yyvsp[0].expression).value.integer);
       }
-#line 5229 "libyara/grammar.c"
+#line 5237 "libyara/grammar.c"
     break;
 
   case 167: /* primary_expression: primary_expression "<<" primary_expression  */
-#line 3016 "libyara/grammar.y"
+#line 3024 "libyara/grammar.y"
       {
         int result;
 
@@ -5249,11 +5257,11 @@ yyreduce:
 
         fail_if_error(result);
       }
-#line 5253 "libyara/grammar.c"
+#line 5261 "libyara/grammar.c"
     break;
 
   case 168: /* primary_expression: primary_expression ">>" primary_expression  */
-#line 3036 "libyara/grammar.y"
+#line 3044 "libyara/grammar.y"
       {
         int result;
 
@@ -5273,19 +5281,19 @@ yyreduce:
 
         fail_if_error(result);
       }
-#line 5277 "libyara/grammar.c"
-    break;
-
-  case 169: /* primary_expression: regexp  */
-#line 3056 "libyara/grammar.y"
-      {
-        (yyval.expression) = (yyvsp[0].expression);
-      }
 #line 5285 "libyara/grammar.c"
     break;
 
+  case 169: /* primary_expression: regexp  */
+#line 3064 "libyara/grammar.y"
+      {
+        (yyval.expression) = (yyvsp[0].expression);
+      }
+#line 5293 "libyara/grammar.c"
+    break;
 
-#line 5289 "libyara/grammar.c"
+
+#line 5297 "libyara/grammar.c"
 
       default: break;
     }
@@ -5509,5 +5517,5 @@ yyreturnlab:
   return yyresult;
 }
 
-#line 3061 "libyara/grammar.y"
+#line 3069 "libyara/grammar.y"
 
